@@ -92,7 +92,7 @@ PROPS = {
         "shards": 4,
     },
     "C13": {
-        "level_text": "Companion Props/C13Syslog over Model/Syslog: pri_decodes (PRI = facility*8 + severity), severity_monotone, severity_not_injective, ceiling_on_levels vs ceiling_on_severities_violation_witness, the header layouts end with the message verbatim. Kernel-checked theorems on the routing model: for a brace list of distinct names every registered writer named receives the record "
+        "level_text": "Companion Props/C13Dup: the duplication decision is a threshold for ALL numbers, downward closed in the level, monotone in the setting (dup_threshold, dup_downward, dup_monotone_setting). Companion Props/C13Syslog over Model/Syslog: pri_decodes (PRI = facility*8 + severity), severity_monotone, severity_not_injective, ceiling_on_levels vs ceiling_on_severities_violation_witness, the header layouts end with the message verbatim. Kernel-checked theorems on the routing model: for a brace list of distinct names every registered writer named receives the record "
                       "exactly once and no other writer anything, independent of the specification (named_writer_exactly_once, unnamed_writer_nothing, "
                       "deliveries_independent_of_spec); the default channel iff _Default is listed and the spec enables the MODULE (brace_default_iff); unknown "
                       "names are reported and do not disturb the others; provided writers emit iff level <= ceiling (ceiling_rule); the complete 7x5 duplication "
